@@ -2,7 +2,7 @@ use crate::{
     adapter::{Adapter, Filter},
     error::{AdapterError, ModelError},
     model::Model,
-    util::parse_csv_line,
+    util::{join_csv_fields, parse_csv_line},
     Result,
 };
 
@@ -167,7 +167,12 @@ where
 
         for (ptype, ast) in ast_map {
             for rule in ast.get_policy() {
-                writeln!(policies, "{}, {}", ptype, rule.join(","))
+                writeln!(
+                    policies,
+                    "{}, {}",
+                    ptype,
+                    join_csv_fields(rule, ",")
+                )
                     .map_err(|e| AdapterError(e.into()))?;
             }
         }
@@ -175,7 +180,12 @@ where
         if let Some(ast_map) = m.get_model().get("g") {
             for (ptype, ast) in ast_map {
                 for rule in ast.get_policy() {
-                    writeln!(policies, "{}, {}", ptype, rule.join(","))
+                    writeln!(
+                    policies,
+                    "{}, {}",
+                    ptype,
+                    join_csv_fields(rule, ",")
+                )
                         .map_err(|e| AdapterError(e.into()))?;
                 }
             }
